@@ -146,6 +146,11 @@ func (pc *PacketConn) startUnreachable(parent context.Context) {
 	pc.context, pc.cancel = context.WithCancel(parent)
 	pc.unreachableSubs = utils.NewBroker(pc.context, reflect.TypeOf(UnreachableNotification{}))
 	iChan := pc.s.GetUnreachableBroker().Subscribe()
+	if iChan == nil {
+		// The node is shutting down: there is nothing to forward, and nothing to unsubscribe
+		// (ranging over a nil channel would block forever, unsubscribing it would close a nil channel).
+		return
+	}
 	go func() {
 		<-pc.context.Done()
 		pc.s.GetUnreachableBroker().Unsubscribe(iChan)
